@@ -412,7 +412,7 @@ def rate_limit(tokeniser: 'Tokeniser') -> ExtendedCommunities:
     return ExtendedCommunities().add(TrafficRate.make_traffic_rate(ASN(0), speed))
 
 
-def redirect(tokeniser: 'Tokeniser') -> tuple[IP, ExtendedCommunities]:
+def redirect(tokeniser: 'Tokeniser') -> tuple[IP, ExtendedCommunities | ExtendedCommunitiesIPv6]:
     data: str = tokeniser()
     count: int = data.count(':')
 
@@ -444,7 +444,12 @@ def redirect(tokeniser: 'Tokeniser') -> tuple[IP, ExtendedCommunities]:
 
         if not 0 <= int(nn) < pow(2, LOCAL_ADMIN_16_BITS):
             raise ValueError('Local administrator field is a 16 bits number, value too large {}'.format(nn))
-        return IP.from_string(ip_str), ExtendedCommunities().add(
+        # a 20 byte community: it travels in the IPv6 Address Specific Extended Community attribute (25), not among
+        # the 8 byte ones of attribute 16 (whose length was then not a multiple of 8)
+        # (and, like the ASN:NN form below, it names a VRF, not a next hop: the address was also handed back as the
+        # next hop of the route, 16 bytes in an IPv4 flow MP_REACH_NLRI)
+        IP.from_string(ip_str)  # validates the address
+        return IP.NoNextHop, ExtendedCommunitiesIPv6().add(
             TrafficRedirectIPv6.make_traffic_redirect_ipv6(ip_str, int(nn))
         )
 
